@@ -1172,6 +1172,136 @@ func genGram(r *common.Rand) *GramCase {
 	return g
 }
 
+// ---------- where step 2 of an upload goes (Model/Location.v) ----------
+
+type LocCase struct{ Scheme, Host, Port, Loc, Digest string }
+
+func (l *LocCase) Line() string {
+	return strings.Join([]string{"U", common.Hex(l.Scheme), common.Hex(l.Host), common.Hex(l.Port), common.Hex(l.Loc), common.Hex(l.Digest)}, " ")
+}
+
+func ParseLoc(line string) (*LocCase, error) {
+	t := strings.Fields(line)
+	if len(t) != 6 || t[0] != "U" {
+		return nil, errors.New("not a location case")
+	}
+	return &LocCase{common.UnHex(t[1]), common.UnHex(t[2]), common.UnHex(t[3]), common.UnHex(t[4]), common.UnHex(t[5])}, nil
+}
+
+// locFake answers the POST with a fixed Location and records where the PUT goes.
+type locFake struct {
+	loc  string
+	post *url.URL
+	put  *url.URL
+	auth string
+}
+
+func (f *locFake) Do(req *http.Request) (*http.Response, error) {
+	if req.Body != nil {
+		io.Copy(io.Discard, req.Body)
+		req.Body.Close()
+	}
+	resp := &http.Response{Header: http.Header{}, Request: req, Body: io.NopCloser(strings.NewReader("")), ProtoMajor: 1, ProtoMinor: 1}
+	switch req.Method {
+	case "POST":
+		f.post = req.URL
+		resp.StatusCode = 202
+		resp.Header.Set("Location", f.loc)
+	case "PUT":
+		u := *req.URL
+		f.put = &u
+		resp.StatusCode = 201
+	default:
+		resp.StatusCode = 405
+	}
+	return resp, nil
+}
+
+func execLoc(id string, l *LocCase) {
+	line := l.Line()
+	reg := l.Host
+	if l.Port != "" {
+		reg += ":" + l.Port
+	}
+	f := &locFake{loc: l.Loc}
+	repo := &remote.Repository{Client: f, Reference: registry.Reference{Registry: reg, Repository: "app/blobs"}, PlainHTTP: l.Scheme == "http"}
+	content := []byte("location")
+	d := ocispec.Descriptor{MediaType: mtOctet, Digest: digest.Digest(l.Digest), Size: int64(len(content))}
+	err := repo.Push(context.Background(), d, bytes.NewReader(content))
+	obs := "noput"
+	if f.put != nil {
+		obs = "url:" + common.Hex(f.put.String())
+	}
+	if err != nil && f.put == nil {
+		obs = "err"
+	}
+	run.Count("location:" + strings.SplitN(obs, ":", 2)[0])
+	// independent expectation, with net/url: the Location is used as given (authority, path,
+	// other query parameters), plus digest=<digest>; a relative one goes to the POST's authority;
+	// documented exception: the port 443 is restored on the POST's own host
+	if f.put != nil && f.post != nil {
+		if lu, perr := f.post.Parse(l.Loc); perr == nil {
+			bad := ""
+			wantHost := lu.Host
+			if f.post.Port() == "443" && lu.Hostname() == f.post.Hostname() && lu.Port() == "" {
+				wantHost = lu.Hostname() + ":443"
+			}
+			if f.put.Host != wantHost {
+				bad = "authority " + f.put.Host + " instead of " + wantHost
+			}
+			if f.put.Scheme != lu.Scheme {
+				bad = "scheme " + f.put.Scheme
+			}
+			if f.put.EscapedPath() != lu.EscapedPath() {
+				bad = "path " + f.put.EscapedPath() + " instead of " + lu.EscapedPath()
+			}
+			pq, lq := f.put.Query(), lu.Query()
+			if v := pq["digest"]; len(v) != 1 || v[0] != l.Digest {
+				bad = "digest parameter " + strings.Join(v, ",")
+			}
+			for k, v := range lq {
+				if k != "digest" && strings.Join(pq[k], "\x00") != strings.Join(v, "\x00") {
+					bad = "parameter " + k + " of the Location not kept"
+				}
+			}
+			for k := range pq {
+				if _, ok := lq[k]; !ok && k != "digest" {
+					bad = "parameter " + k + " invented"
+				}
+			}
+			if bad != "" {
+				run.OracleFail(id, "upload-location", fmt.Sprintf("POST %s answered Location %q, PUT went to %s: %s", f.post, l.Loc, f.put, bad), replayOf(line))
+			}
+		}
+	}
+	run.Nontrivial(line)
+	run.Case(id, line, obs)
+}
+
+func genLoc(r *common.Rand) *LocCase {
+	l := &LocCase{Scheme: common.Pick(r, []string{"https", "https", "http"}), Host: common.Pick(r, []string{"registry.example", "reg.io", "localhost", "R-1.example"}),
+		Port: common.Pick(r, []string{"", "443", "443", "5000", "80", "8443"}), Digest: sha([]byte{byte(r.Intn(3))})}
+	path := common.Pick(r, []string{"/v2/app/blobs/uploads/7", "/v2/app/blobs/uploads/a1b2-c3", "/upload/x_y~z", "/"})
+	query := common.Pick(r, []string{"", "", "?_state=abc123", "?z=1&a=2", "?digest=old&k=v", "?mount=x"})
+	host := l.Host
+	if r.Chance(1, 4) {
+		host = common.Pick(r, []string{"blobs.example", "cdn.reg.io", "registry.example"})
+	}
+	switch r.Intn(8) {
+	case 0, 1, 2:
+		l.Loc = path + query // absolute path
+	case 3, 4:
+		l.Loc = common.Pick(r, []string{"https", "http", l.Scheme}) + "://" + host + path + query // no port
+	case 5:
+		l.Loc = l.Scheme + "://" + host + ":" + common.Pick(r, []string{"443", "5000", l.Port + "0"}) + path + query
+	case 6:
+		l.Loc = l.Scheme + "://" + l.Host + path + query // the issue-177 shape when Port is 443
+	default: // forms the model does not judge (net/url territory)
+		l.Loc = common.Pick(r, []string{"uploads/7", "//other.example/v2/x", "https://user@reg.io/v2/x", "/v2/a%20b/uploads/1", "/v2/x?a=b%26c", "https://[::1]:443/v2/x", ""})
+	}
+	return l
+}
+
 // ---------- generators ----------
 
 func jsonManifest(r *common.Rand, i int, subj *fr.Desc) []byte {
@@ -1444,6 +1574,12 @@ func main() {
 				}
 				continue
 			}
+			if strings.HasPrefix(line, "U ") {
+				if l, err := ParseLoc(line); err == nil {
+					execLoc(id, l)
+				}
+				continue
+			}
 			if strings.HasPrefix(line, "A ") {
 				if g, err := ParseGram(line); err == nil {
 					execGram(id, g)
@@ -1484,6 +1620,10 @@ func main() {
 	ns := run.Scale(2500, 100000)
 	for i := 0; i < ns; i++ {
 		execSeek(run.NewID(), genSeek(r.Fork()))
+	}
+	nl := run.Scale(1500, 40000)
+	for i := 0; i < nl; i++ {
+		execLoc(run.NewID(), genLoc(r.Fork()))
 	}
 	ng := run.Scale(4000, 200000)
 	for i := 0; i < ng; i++ {
